@@ -386,6 +386,10 @@ def mk_algo(bt, d, tickers, dates, data, perturb=None):
         r = _random.Random(d[1])
         idx = pd.DatetimeIndex(dates)
         stat = pd.DataFrame({t: [float(r.randint(0, 20)) for _ in idx] for t in tickers}, index=idx)
+        # a statistic is often published less often than prices: keep a subset of the rows (the first always)
+        if r.random() < 0.6:
+            keep = [i for i in range(len(idx)) if i == 0 or r.random() < 0.5]
+            stat = stat.iloc[keep]
         stat = perturb_frame(stat, perturb, "stat%d" % d[1])
         return bt.core.AlgoStack(a.SetStat(stat, lag=pd.DateOffset(days=d[3])), a.SelectN(d[2], sort_descending=d[4]))
     if n == "SelectActive":
